@@ -4,6 +4,7 @@ package c06
 
 import (
 	"fmt"
+	"sort"
 	"strings"
 	"time"
 
@@ -405,6 +406,61 @@ func concurrency(c conc) *fw.Scenario {
 	}}
 }
 
+// halfClose: requests are held inside the backend, the peer ends ITS stream
+// (it stops sending but keeps reading), then the requests are released: each
+// of them was received in full and is owed its reply before the server hangs
+// up.
+func halfClose(n int) *fw.Scenario {
+	return &fw.Scenario{Name: fmt.Sprintf("half-close-with-%d-requests-held", n), Params: map[string]int{"held": n}, DeadlockOK: true, New: func() (func(), func(*vsched.Execution) ([]fw.Issue, string)) {
+		var s *sess.Sess
+		var got []string
+		sent := 0
+		body := func() {
+			got, sent = nil, 0
+			fs := mkfs()
+			s = sess.Connect(fs, sess.NewServer(fs), "c")
+			setup(s)
+			gate := &memfs.Gate{}
+			fs.Hook = func(cl *memfs.Call) *memfs.Action {
+				if (cl.Method == "ReadAt" || cl.Method == "GetAttr") && vsched.Exploring() {
+					return &memfs.Action{Gate: gate}
+				}
+				return nil
+			}
+			vsched.BeginExplore()
+			s.Peer.Send(rawpeer.Tread(50, 2, 0, 4))
+			sent++
+			if n > 1 {
+				s.Peer.Send(rawpeer.Tgetattr(51, 3))
+				sent++
+			}
+			s.CC.W.CloseWrite()
+			gate.Open()
+			for i := 0; i < sent; i++ {
+				r, err := s.Peer.Recv()
+				if err != nil {
+					break
+				}
+				got = append(got, fmt.Sprintf("%s/%d", r.Name(), r.Tag))
+			}
+			vsched.EndExplore()
+			s.Hangup()
+			s.WaitDone()
+		}
+		return body, func(e *vsched.Execution) ([]fw.Issue, string) {
+			var is []fw.Issue
+			if e.End == vsched.EndDeadlock {
+				return []fw.Issue{{Fingerprint: "half-close|deadlock", Summary: "after the peer ended its stream with requests held in the backend nothing can run: " + e.Blocked}}, "deadlock"
+			}
+			if e.End == vsched.EndComplete && len(got) != sent {
+				is = append(is, fw.Issue{Fingerprint: "half-close|request-received-in-full-gets-no-reply", Summary: fmt.Sprintf("%d requests were received in full before the peer ended its stream (it kept reading); replies received: %v", sent, got)})
+			}
+			sort.Strings(got)
+			return is, strings.Join(got, " ")
+		}
+	}}
+}
+
 func run(ctx *fw.Ctx, rep *fw.Report) {
 	rep.Rule = "scenario = closed program (pipelined batch / tag re-use / duplicate tag in flight / request gated in the backend plus a non-conflicting request) on the real server under the controlled scheduler; all Mazurkiewicz traces (DPOR+sleep sets), fallback preemption bounds 0,1; oracle on the recorded server byte stream (whole frames, one writer thread per frame, reply-tag multiset == request-tag multiset, matching R type or Rlerror) and deadlock detection for the concurrency clause; distinct = distinct reply orders per scenario"
 	rep.Assumptions = append(rep.Assumptions, "independence classes of DESIGN §2.2", "sync.Pool fresh mode, message cache treated as empty", "setup requests before the explored window follow the default schedule and settle (Quiesce)")
@@ -422,7 +478,7 @@ func run(ctx *fw.Ctx, rep *fw.Report) {
 	for _, a := range []string{"getattr", "read", "flush-idle"} {
 		scs = append(scs, batch(params{Kinds: []string{a, "getattr"}, Tags: []uint16{0xffff, 2}}))
 	}
-	scs = append(scs, reuse(5), reuse(0xffff), inflightDup())
+	scs = append(scs, reuse(5), reuse(0xffff), inflightDup(), halfClose(1), halfClose(2))
 	for _, c := range []conc{
 		{"read", "getattr-root", false}, {"read", "walk-d", false}, {"read", "read", false}, {"read", "clunk-e", false}, {"read", "statfs", false}, {"read", "flush-idle", false},
 		{"getattr-d", "walk-d", false}, {"walk-d", "getattr-d", false}, {"mkdir-e", "getattr-d", false}, {"mkdir-e", "read", false},
